@@ -3,11 +3,16 @@ EXTENDS HttpGate, Json
 NoNext == FALSE /\ UNCHANGED vars
 EmitScn == pc = "recv" => PrintT(<<"SCN", ToJson([req |-> req])>>)
 Integs == {"aiohttp", "flask", "werkzeug"}
-Medias == {[base |-> b, variant |-> v] : b \in Documented, v \in {"plain", "charset", "upper", "charset_upper", "spaces"}}
+Medias == {[base |-> b, variant |-> v] : b \in Documented, v \in {"plain", "charset", "upper", "charset_upper", "spaces", "charset_ascii", "charset_latin1"}}
           \cup {[base |-> b, variant |-> "plain"] : b \in {"application/jsonx", "application/json-rpc2", "text/json", "text/plain",
                                                         "application/vnd.api+json", "application/x-www-form-urlencoded", "missing", "json", "application/jsonrequests"}}
           \cup {[base |-> "text/plain", variant |-> "charset"]}
 Bodies == {"call_ok", "call_err", "notif", "batch_ok", "batch_mixed", "batch_notif", "unknown", "invalid", "notjson", "non_utf8"}
-Init == \E i \in Integs, m \in Medias, b \in Bodies, f \in {"default", "custom"}, p \in {"none", "api"} :
+\* a third endpoint ("zzz": in aiohttp it is served by a sub-application of its own) over a reduced media alphabet
+MediasSmall == {[base |-> "application/json", variant |-> "plain"], [base |-> "application/json-rpc", variant |-> "charset"],
+                [base |-> "text/plain", variant |-> "plain"], [base |-> "missing", variant |-> "plain"], [base |-> "application/jsonx", variant |-> "plain"]}
+Init == \/ \E i \in Integs, m \in Medias, b \in Bodies, f \in {"default", "custom"}, p \in {"none", "api"} :
             InitWith([integ |-> i, media |-> m, body |-> b, statusfn |-> f, prefix |-> p])
+        \/ \E i \in Integs, m \in MediasSmall, b \in Bodies, f \in {"default", "custom"} :
+            InitWith([integ |-> i, media |-> m, body |-> b, statusfn |-> f, prefix |-> "zzz"])
 =============================================================================
